@@ -21,7 +21,7 @@ from .core import AnalysisError
 from .interp import Obj, PyRaise, run_guarded, TaintAbort, ItemList
 from . import npmodel as NP
 from .npmodel import AArr, SymScalar, t_add, t_neg, t_mul, t_recip, t_fn, t_sum, t_in, vkey, universe
-from .world import World, lists_over, SUBSET_POS, LENGTHS
+from .world import World, lists_over, SUBSET_POS, LENGTHS, with_lengths
 
 
 class Verdict:
@@ -420,7 +420,7 @@ def selection(w: World, A, kv, key_style="letter", subset_pos=None):
             key[kname] = items[1]
             sel.append((l, ("c", items[1])))
         else:
-            pos = (subset_pos or {}).get(l) or SUBSET_POS[l]
+            pos = (subset_pos or {}).get(l) or w.subset_pos[l]
             chosen = [items[p] for p in pos]
             if k == "subset":
                 d = w.subdim(l, pos)
@@ -460,7 +460,7 @@ def case_getitem(prog, A, kv, key_style="letter", subset_pos=None, taint_mode="a
 def rhs_variants(kv):
     out = ["number", "ndarray"]
     if "list" not in kv:
-        out += ["array-same", "array-permuted-extra", "array-missing"]
+        out += ["array-same", "array-permuted", "array-permuted-extra", "array-missing", "array-other-dim"]
     return out
 
 
@@ -492,11 +492,18 @@ def case_setitem(prog, A, kv, rhs, key_style="letter", subset_pos=None, taint_mo
         inputs.append(val)
     else:
         extra = [l for l in "abcd" if l not in A][:1] if rhs == "array-permuted-extra" else []
-        rl = list(reversed(letters)) + extra if rhs == "array-permuted-extra" else list(letters)
+        rl = list(reversed(letters)) + extra if rhs in ("array-permuted-extra", "array-permuted") else list(letters)
+        if rhs == "array-permuted" and len(letters) < 2:
+            return None
         if rhs == "array-missing":
             if not letters:
                 return None
             rl = rl[1:]
+            expect_raise = True
+        if rhs == "array-other-dim":      # same number of dimensions, one of them foreign
+            if not letters:
+                return None
+            rl = rl[:-1] + ["e"]
             expect_raise = True
         dimobjs = dict(region_dims)
         y = w.array("y", rl, dimobjs=dimobjs)
@@ -635,11 +642,11 @@ def case_tuple_key(prog, A, which, taint_mode="abort"):
     x = w.array("x", A)
     X = leaf_term("x", A, w)
     snaps = w.snap(x)
-    items = [w.items(l)[2] for l in which]
+    items = [w.items(l)[-1] for l in which]
     key = items[0] if len(items) == 1 else tuple(items)
     kind, r = run_guarded(lambda: w.it.call_method(x, "__getitem__", key))
     keep = [l for l in A if l not in which]
-    m = {vkey(w.items(l)): ("c", w.items(l)[2]) for l in which}
+    m = {vkey(w.items(l)): ("c", w.items(l)[-1]) for l in which}
     judge_array(case, w, kind, r, tuple(keep), full_axes(w, keep), NP.subst(X, m))
     common_checks(case, w, [x], snaps, kind, r, fresh=True)
     return finish(case, w)
@@ -652,7 +659,7 @@ def case_tuple_key_set(prog, A, l, taint_mode="abort"):
     x = w.array("x", A)
     X = leaf_term("x", A, w)
     snaps = w.snap(x)
-    its = [w.items(l)[3], w.items(l)[1]]
+    its = [w.items(l)[-1], w.items(l)[1]]
     kind, r = run_guarded(lambda: w.it.call_method(x, "__setitem__", tuple(its), SymScalar(("sym", "k"))))
     exp = ("upd", X, ((l, ("v", vkey(its))),), ("sym", "k"))
     if kind != "ok":
